@@ -188,3 +188,73 @@ def decorators(fn) -> list:
 def need(cond, msg):
     if not cond:
         raise AnalysisError(msg)
+
+
+# ---- package-wide scans ---------------------------------------------------------
+def iter_functions(m, prefix='pytableaux'):
+    "(module, qualname, FunctionDef) for every function of every module under prefix"
+    for mod in sorted(m.trees):
+        if not mod.startswith(prefix):
+            continue
+        for qn, fn in all_functions(m.trees[mod]):
+            yield mod, qn, fn
+
+
+def all_functions(tree):
+    """Like Model.functions but keeps *every* definition (property getter and
+    setter share a name): returns [(qualname, node)] in source order."""
+    out = []
+
+    def walk(body, prefix):
+        for st in body:
+            if isinstance(st, (ast.FunctionDef, ast.AsyncFunctionDef)):
+                out.append((prefix + st.name, st))
+                walk(st.body, prefix + st.name + '.<locals>.')
+            elif isinstance(st, ast.ClassDef):
+                walk(st.body, prefix + st.name + '.')
+            elif isinstance(st, (ast.If, ast.Try, ast.With, ast.For, ast.While)):
+                for fld in ('body', 'orelse', 'finalbody'):
+                    walk(getattr(st, fld, []) or [], prefix)
+                for h in getattr(st, 'handlers', []) or []:
+                    walk(h.body, prefix)
+    walk(tree.body, '')
+    return out
+
+
+def func_variants(m, mod, qualname):
+    "all definitions with this qualname (e.g. property getter + setter), with decorator texts"
+    return [(fn, decorators(fn)) for qn, fn in all_functions(m.trees[mod]) if qn == qualname]
+
+
+def getter(m, mod, qualname):
+    for fn, decs in func_variants(m, mod, qualname):
+        if 'property' in decs:
+            return fn
+    raise AnalysisError(f'property getter {mod}:{qualname} vanished')
+
+
+def setter(m, mod, qualname):
+    name = qualname.rsplit('.', 1)[-1]
+    for fn, decs in func_variants(m, mod, qualname):
+        if f'{name}.setter' in decs:
+            return fn
+    raise AnalysisError(f'property setter {mod}:{qualname} vanished')
+
+
+def attr_stores(m, attr, prefix='pytableaux'):
+    """Every store to `<anything>.<attr>` in the package:
+    (module, function-qualname, FunctionDef, target, statement)."""
+    for mod, qn, fn in iter_functions(m, prefix):
+        for t, st in stores(fn, nested=False):
+            if isinstance(t, ast.Attribute) and t.attr == attr:
+                yield mod, qn, fn, t, st
+
+
+def method_calls_on_attr(m, attr, methods, prefix='pytableaux'):
+    """Calls `<x>.<attr>.<method>(...)` for method in methods:
+    (module, function-qualname, FunctionDef, call)."""
+    for mod, qn, fn in iter_functions(m, prefix):
+        for c in calls(fn, nested=False):
+            f = c.func
+            if isinstance(f, ast.Attribute) and f.attr in methods and isinstance(f.value, ast.Attribute) and f.value.attr == attr:
+                yield mod, qn, fn, c
